@@ -4,6 +4,7 @@ import (
 	"bytes"
 	"encoding/json"
 	"fmt"
+	"sort"
 
 	"github.com/Breeze0806/gobinlog/replication"
 
@@ -88,3 +89,7 @@ func typeName(t byte, real byte) string {
 	}
 	return n
 }
+
+func bytesReader(b []byte) *bytes.Reader { return bytes.NewReader(b) }
+
+func sortInts(a []int) { sort.Ints(a) }
